@@ -83,9 +83,20 @@ impl DebugScenario {
         })
     }
 
-    /// Program input is only delivered when the debugger can never read it as commands.
+    /// Program input is only delivered when the debugger can never read it as commands: the
+    /// whole script in `--command` and ending explicitly (standard input is then all the
+    /// program's).
     pub fn input_is_deliverable(&self) -> bool {
         self.transport == Transport::Arg && self.script.iter().any(|i| matches!(i.cmd, Cmd::Quit | Cmd::Exit))
+    }
+
+    /// Script on standard input ending with `quit`, program input following it on the same
+    /// stream: the debugger must consume exactly its own commands and not a byte more.
+    pub fn input_follows_script(&self) -> bool {
+        self.transport == Transport::Stdin
+            && !self.input.is_empty()
+            && matches!(self.script.last().map(|i| &i.cmd), Some(Cmd::Quit))
+            && !self.script[..self.script.len() - 1].iter().any(|i| matches!(i.cmd, Cmd::Quit | Cmd::Exit))
     }
 }
 
@@ -562,7 +573,7 @@ pub fn check_session(cap: &Capture, scn: &DebugScenario, report: &mut Report) ->
         stack: scn.stack,
         minimal: scn.minimal,
         debug: None,
-        stdin: if scn.input_is_deliverable() { scn.input.clone() } else { Vec::new() },
+        stdin: if scn.input_is_deliverable() || scn.input_follows_script() { scn.input.clone() } else { Vec::new() },
         fuel: 60_000,
         max_idle: u64::MAX,
         max_commands: u64::MAX,
@@ -632,8 +643,13 @@ pub fn check_session(cap: &Capture, scn: &DebugScenario, report: &mut Report) ->
         let mut pre = Dbg::new(vm.clone(), &breaks, labels.clone(), MODEL_BUDGET);
         pre.io = crate::model::vm::Io::with_input(&model_input);
         for item in &script {
+            let tail = matches!(item.cmd, Cmd::Quit) && scn.input_follows_script();
+            if tail {
+                pre.io.input = scn.input.clone();
+                pre.io.input_requests = 0;
+            }
             let o = pre.apply(&item.cmd, Policy::STRICT);
-            if pre.io.input_requests > 0 && !has_input {
+            if pre.io.input_requests > 0 && !has_input && !tail {
                 out.discarded = Some("input-trap-in-session".into());
                 return out;
             }
@@ -667,7 +683,18 @@ pub fn check_session(cap: &Capture, scn: &DebugScenario, report: &mut Report) ->
             arg: delivery.arg.clone(),
             terminal: delivery.terminal.clone(),
         }),
-        stdin: if has_input { scn.input.clone() } else { delivery.stdin.clone() },
+        stdin: if has_input {
+            scn.input.clone()
+        } else if scn.input_follows_script() {
+            let mut bytes = delivery.stdin.clone();
+            if !matches!(bytes.last(), Some(b'\n') | Some(b';')) {
+                bytes.push(b'\n');
+            }
+            bytes.extend_from_slice(&scn.input);
+            bytes
+        } else {
+            delivery.stdin.clone()
+        },
         fuel,
         max_idle: 24,
         // Every script line plus the implicit end of input, with slack for blank commands
@@ -676,6 +703,22 @@ pub fn check_session(cap: &Capture, scn: &DebugScenario, report: &mut Report) ->
     };
     let real = run_session(cap, &session);
     report.sim_ticks += plain.ticks + real.ticks;
+    if real.end == End::Flood {
+        out.violations.push(Violation::new(
+            "C16",
+            format!(
+                "C16/commands-without-end/{}",
+                match scn.transport {
+                    Transport::Arg => "argument",
+                    Transport::Stdin => "stdin",
+                    Transport::Split(_) => "split",
+                    Transport::Terminal => "terminal",
+                }
+            ),
+            format!("the session read more than {} command lines from a script of {}: a reader hands out lines forever", 2 * (scn.script.len() + 4), scn.script.len()),
+        ));
+        return out;
+    }
     if real.end == End::Hang {
         // Not even the simulated clock advances: lace loops inside one command or one read
         out.violations.push(Violation::new(
@@ -699,6 +742,7 @@ pub fn check_session(cap: &Capture, scn: &DebugScenario, report: &mut Report) ->
     let mut sig: Vec<u8> = Vec::new();
     let mut expected_end: Option<End> = None;
     let mut halt_executed_attached = false;
+    let mut tail_input_active = false;
     let first_exec_total = real.execs;
 
     let push = |out: &mut SessionCheck, prop: &str, key: String, detail: String| {
@@ -855,6 +899,13 @@ pub fn check_session(cap: &Capture, scn: &DebugScenario, report: &mut Report) ->
         sig.push(fnv(item.cmd.kind_name().as_bytes()) as u8);
 
         // ----- the command takes effect: model candidates vs the real next pause -----
+        if matches!(item.cmd, Cmd::Quit) && scn.input_follows_script() && !is_implicit {
+            // From here on the rest of the stream is the program's
+            dbg.io.input = scn.input.clone();
+            dbg.io.input_pos = 0;
+            dbg.io.input_requests = 0;
+            tail_input_active = true;
+        }
         let before = dbg.clone();
         let class = first_instr_class(&before.vm);
         let execs_before = execs_seen;
@@ -901,7 +952,7 @@ pub fn check_session(cap: &Capture, scn: &DebugScenario, report: &mut Report) ->
             report.hit(&format!("probe:refused_{}", item.cmd.kind_name()));
         }
 
-        if model_after.io.input_requests > 0 && !has_input {
+        if model_after.io.input_requests > 0 && !has_input && !tail_input_active {
             // The debugger and the program share one input stream; a program that reads input
             // (here: after a `move` planted an input trap) is outside the modelled sessions
             out.discarded = Some("input-trap-in-session".into());
